@@ -66,32 +66,47 @@ def audit(module):
     return thms
 
 
-def source_scan():
-    """Reject sorry/admit/axiom/native_decide/bv_decide in the Lean sources."""
+def import_closure(module):
+    """Files of the Lean project transitively imported by `module` (Mltwist.* only)."""
+    seen, todo = {}, [module]
+    while todo:
+        m = todo.pop()
+        if m in seen or not m.startswith("Mltwist"):
+            continue
+        path = os.path.join(LEAN, *m.split(".")) + ".lean"
+        if not os.path.exists(path):
+            continue
+        seen[m] = path
+        for line in open(path, encoding="utf-8"):
+            mm = re.match(r"^\s*import\s+(\S+)", line)
+            if mm:
+                todo.append(mm.group(1))
+    return seen
+
+
+def source_scan(module):
+    """Reject sorry/admit/axiom/native_decide/bv_decide in the Lean sources the module depends on."""
     bad = []
     pat = re.compile(r"\b(sorry|admit|native_decide|bv_decide|implemented_by|unsafe)\b|^\s*axiom\s")
-    for root, _, files in os.walk(os.path.join(LEAN, "Mltwist")):
-        for fn in files:
-            if not fn.endswith(".lean") or fn == "AuditTool.lean":
-                continue
-            incomment = 0
-            for n, line in enumerate(open(os.path.join(root, fn), encoding="utf-8"), 1):
-                code = line
-                # crude comment stripping: block comments tracked by depth, line comments cut
-                out = ""
-                i = 0
-                while i < len(code):
-                    if code.startswith("/-", i):
-                        incomment += 1; i += 2; continue
-                    if code.startswith("-/", i) and incomment:
-                        incomment -= 1; i += 2; continue
-                    if not incomment and code.startswith("--", i):
-                        break
-                    if not incomment:
-                        out += code[i]
-                    i += 1
-                if pat.search(out):
-                    bad.append("%s:%d: %s" % (os.path.relpath(os.path.join(root, fn), LEAN), n, line.strip()))
+    for m, path in sorted(import_closure(module).items()):
+        if m == "Mltwist.AuditTool":
+            continue
+        incomment = 0
+        for n, line in enumerate(open(path, encoding="utf-8"), 1):
+            out = ""
+            i = 0
+            while i < len(line):
+                if line.startswith("/-", i):
+                    incomment += 1; i += 2; continue
+                if line.startswith("-/", i) and incomment:
+                    incomment -= 1; i += 2; continue
+                if not incomment and line.startswith("--", i):
+                    break
+                if not incomment:
+                    out += line[i]
+                i += 1
+            if pat.search(out):
+                bad.append("%s:%d: %s" % (os.path.relpath(path, LEAN), n, line.strip()))
     return bad
 
 
